@@ -34,6 +34,17 @@ CHECKS = {
    note="Linear policy: attempt numbers and the jitter factor are explored value by value on a grid (symbolic float x symbolic 52-bit duration is not decided by any back end here). math.Pow(2,n) is built exactly from the exponent bits; the HTTP-date flavour of Retry-After and the retryable_client request loop are outside the claim.",
    technique="symbolic execution of go/ssa + SMT (QF_BVFP, cvc5 with z3 cross-check), native replay",
    design="5/C14"),
+
+ "C02": dict(
+   text="Two bounded model-checking harnesses over the real code. (1) Kernel: sanitiseZipExtractPath (with the real filepath.Join/Clean and strings code) on an entry name of 0..4 (thorough 6) FULLY symbolic bytes against 8 destination shapes: z3 decides that every accepted name resolves -- by an independent naive component-stack resolution -- inside the destination, that the returned path is that resolved location, that rejections carry the 'malicious' kind, and (completeness) that legal names are accepted outside two recorded known-finding regions. (2) Call sites: the real unzip over real archives (archive/zip writer and reader interpreted) of 1..2 entries named over a small alphabet, optionally with a nested archive in recursive mode, on afero's real MemMapFs behind a recording wrapper: every mutating backend operation targets the destination or below, nothing outside changes, escaping entries are refused as malicious, handles are balanced.",
+   note="Lexical path semantics on Linux separators; names that are not valid UTF-8 are covered up to the sanitiser but the charset detection/transcoding applied afterwards is outside (chardet statistics not encodable); symbolic links in the destination tree and the OS-backed filesystem are outside.",
+   technique="symbolic execution of go/ssa + SMT (QF_BV) over symbolic byte strings; bounded enumeration for the call-site harness; native replay",
+   design="5/C02"),
+ "C03": dict(
+   text="Bounded model checking of the real unzip/unzipZippedFile/unzipNestedZipFiles/newZipReader with the real archive/zip reader, safeio.CopyN chain and afero MemMapFs: the four limits are FULLY symbolic 64-bit values (sizes/count >= 0, depth any sign) plus the Recursive flag, over real generated archives of 1..2 (thorough 3) entries (files of 0/2 bytes, directories, depth 1 and 2, a nested archive, a non-archive with .zip name, a first file whose header declares size+-1). z3 decides for all limit values: success => files/total/per-file/depth on disk (independent walk) within the limits; an honest archive exceeding a limit is refused with the 'too large' kind; no handle ever writes beyond the per-file limit or the declared size; limits off => no refusal; handles balanced. The 'lying header must be an error' clause fails inside a recorded known-finding region (declared < actual) and holds outside it.",
+   note="'Number of files' is read as regular files left on disk. Store method only (no deflate), nesting depth 1, at most 3 entries, in-memory backend. Digits of symbolic integers inside formatted error messages are an opaque token.",
+   technique="symbolic execution of go/ssa + SMT (QF_BV) with symbolic limits over enumerated real archives; native replay",
+   design="5/C03"),
 }
 NA = {}
 def main():
